@@ -14,6 +14,7 @@ from .ops import (eq, arith, compare, to_bool_term, bool_val, z_and, z_or, z_not
 from .interp import (ExprMixin, ReturnEx, BreakEx, ContinueEx, PyRaise, BoundMethod, Closure, Frame,
                      qual_of)
 from .registry import SpecFn, Contract, Loop
+from . import opaque as _opaque  # noqa: F401  (installs the hooks on SOpaque)
 
 
 class Old:
@@ -74,6 +75,12 @@ class Interp(ExprMixin):
                 self.frame.env[f.value.id] = recv.ty.dt.mutators[f.attr](self, recv, self.ev_seq(node.args))
                 return None
         fn = self.ev(f)
+        if isinstance(fn, SOpaque) or (isinstance(fn, BoundMethod) and isinstance(fn.obj, SOpaque)):
+            for a in node.args:      # arguments are evaluated for their effects; an opaque callee reveals nothing
+                self.ev(a.value if isinstance(a, ast.Starred) else a)
+            for kw in node.keywords:
+                self.ev(kw.value)
+            return self.call(fn, [], {}, node)
         args = self.ev_seq(node.args)
         kwargs = {}
         for kw in node.keywords:
@@ -92,7 +99,10 @@ class Interp(ExprMixin):
         if name == "__setattr__" and isinstance(slf, SObj):
             k, v = args
             if is_sym(k):
-                raise Unsupported("setattr with a symbolic attribute name")
+                c = self.concretize(k)
+                if c is None:
+                    raise Unsupported("setattr with a symbolic attribute name")
+                k = c
             slf.fields[k] = v
             return None
         if name == "__init__":
@@ -395,6 +405,9 @@ class Interp(ExprMixin):
     def str_method(self, s, name, args, node):
         if isinstance(s, str) and all(isinstance(a, (str, int)) for a in args):
             return getattr(s, name)(*args)
+        hook = getattr(self.reg, "str_methods", {}).get(name)
+        if hook is not None:
+            return hook(self, [s] + list(args), {}, node)
         if name == "join" and isinstance(s, str):
             parts = args[0]
             if isinstance(parts, (list, tuple)) and all(isinstance(p, str) for p in parts):
@@ -507,10 +520,10 @@ class Interp(ExprMixin):
             self.ctx.spec_mode -= 1
             self.frame = saved
 
-    def spec_value(self, expr_src, env, old=None):
+    def spec_value(self, expr_src, env, old=None, globs=None):
         node = ast.parse(expr_src.strip(), mode="eval").body
         saved = self.frame
-        fr = Frame("spec", node, None, None, None, None)
+        fr = Frame("spec", node, None, None, None, globs)
         fr.env = env
         fr.old = old
         self.frame = fr
@@ -555,16 +568,20 @@ class Interp(ExprMixin):
                 ty = self.reg.type(ts)
                 if isinstance(ty, (TData,)):
                     env[p] = SData(ty.unwrap(env[p], self.ctx), ty)
+                elif isinstance(ty, TList) and isinstance(env[p], (list, tuple)):
+                    env[p] = self.to_slist(list(env[p]), ty.elem)
+                elif type(ty).__name__ == "TDict" and isinstance(env[p], dict):
+                    env[p] = ty.wrap(ty.unwrap(env[p], self.ctx))
         for cl in c.requires:
             src, tags = self.clause(cl)
-            self.ctx.oblige("call-pre", self.spec_eval(src, dict(env)), line, tags=tags or tuple(c.tags),
+            self.ctx.oblige("call-pre", self.spec_eval(src, dict(env), None, c.namespace), line, tags=tags or tuple(c.tags),
                             note=f"{short}: {src}")
         old = {k: snapshot(v) for k, v in env.items()}
         # exceptional outcomes
         for exc_name, cond in c.raises.items():
             cls_exc = self.exc_class(exc_name, modname)
             if cond is not None:
-                if self.ctx.branch(self.spec_eval(cond, dict(env))):
+                if self.ctx.branch(self.spec_eval(cond, dict(env), None, c.namespace)):
                     raise PyRaise(SExc(cls_exc), line)
             elif self.frame.try_depth > 0 or self.ctx.want_exc:
                 if self.ctx.branch(self.ctx.fresh(f"raises_{exc_name}", z3.BoolSort())):
@@ -581,7 +598,7 @@ class Interp(ExprMixin):
         post_env["result"] = result
         for cl in c.ensures:
             src, _ = self.clause(cl)
-            self.ctx.assume(self.spec_eval(src, post_env, old))
+            self.ctx.assume(self.spec_eval(src, post_env, old, c.namespace))
         return result
 
     def exc_class(self, name, modname):
